@@ -18,6 +18,7 @@ def value_corpus(F, tier, name):
     recs += gen.g_carry(F, rng, tier)
     recs += gen.g_grid(F, rng, tier)
     recs += gen.g_exact_products(F, rng, tier)
+    recs += gen.g_lo_ones(F, rng, tier)
     recs += gen.g_extremes(F, rng, big=20000 if q else 1000000)
     recs += gen.g_runs(F, rng, 80 if q else 3000)
     return gen.normalise(gen.dedup(recs))
@@ -53,7 +54,7 @@ def c01(tier):
              "G4 (seams), G5 (extremes), G6 (run-structured), G8 (exact <= 19-digit ties, both parities), G9 (low-decade "
              "midpoints), G10 (integer ties + one bit), G11 (every binade beyond the range ends), G12 (every decade, 17..19-digit "
              "truncations), G13 (carry into the next binade incl. subnormal -> normal), G14 (d x 10^q for every q), G15 (exact "
-             "64-bit products w x 5^q with forced low-bit patterns); "
+             "64-bit products w x 5^q with forced low-bit patterns), G16 (first product's low word all ones); "
              "distinct = distinct (int,frac,exp) triples; "
              "every record is adjudicated by TLC with IEEE!Judge",
         level_note="TLC evaluates the declarative rounding definition (IEEE.tla) on each (input, bits) pair observed "
@@ -901,6 +902,7 @@ def c12(tier):
     trails = collections.Counter()
     drift = 0
     states = trans = nrec = 0
+    tag_of = {r["id"]: r.get("tag", "") for r in inputs}
     for cfg, variant in plan:
         outs = run_records(wd, "run_bigint", inputs, [cfg], name="bigint-" + variant)[cfg]
         outs = [o for o in outs if o["res"]["r"] != "skip"]
@@ -918,6 +920,8 @@ def c12(tier):
                 drift += 1
             if v["verdict"] == "impl_violates":
                 violations.append(core.write_replay("C12", {"property": "C12", "config": cfg, "record": by_id[rid], "verdict": v}))
+            elif v["verdict"] == "input_invalid" and tag_of.get(rid, "").endswith(":empty"):
+                pass        # degenerate operands outside the property's domain: judged for panics only
             elif v["verdict"] != "ok":
                 tool.append((cfg, rid, v))
         states += res.distinct
